@@ -81,6 +81,17 @@ func genC03(t *rapid.T) E3Case {
 		}
 		c.Events = append(c.Events, ev)
 	}
+	// sometimes the pipeline keeps being built between events (sequentially; never while an event is in flight)
+	if rapid.IntRange(0, 2).Draw(t, "late") == 0 {
+		for k := rapid.IntRange(1, 3).Draw(t, "nlate"); k > 0; k-- {
+			// never in front of the decoder (position 1), which turns transport reads into messages
+			op := BuildOp{Op: rapid.SampledFrom([]string{"last", "at", "at"}).Draw(t, "lop"), H: []int{rapid.IntRange(0, np-1).Draw(t, "lh")}}
+			if op.Op == "at" {
+				op.Pos = rapid.IntRange(1, 12).Draw(t, "lpos") // taken modulo the size at that moment
+			}
+			c.Late = append(c.Late, LateBuild{After: rapid.IntRange(0, ne-1).Draw(t, "lafter"), Op: op})
+		}
+	}
 	return c
 }
 
@@ -364,6 +375,32 @@ func runC03(c E3Case) (out core.Outcome) {
 				outboundLong = true
 			} else {
 				inboundLong = true
+			}
+		}
+		for _, lb := range c.Late {
+			if lb.After != ei || m.closed {
+				continue
+			}
+			op := lb.Op
+			if op.Op == "at" {
+				op.Pos = 1 + op.Pos%(m.size()-1) // after the decoder, up to the last position
+			}
+			for _, hi := range op.H {
+				if hi < 0 || hi >= len(c.Handlers) {
+					return core.Outcome{Inconclusive: "bad case: handler index"}
+				}
+			}
+			mustPanic := m.build(op, c.Handlers)
+			panicked := r.realBuild(op)
+			when := fmt.Sprintf("late build after event %d (%s pos=%d handlers=%v)", ei, op.Op, op.Pos, op.H)
+			if mustPanic != panicked {
+				out.Violation = core.Viol("C03/build-admission", "%s: real call panicked=%v, expected %v", when, panicked, mustPanic)
+				return
+			}
+			cls.Add("late-build")
+			if v := checkStructure(r, m, r.pool, when); v != nil {
+				out.Violation = v
+				return
 			}
 		}
 	}
